@@ -28,6 +28,11 @@ type C02Fault struct {
 }
 
 type C02Plan struct {
+	Mode     string     `json:"mode,omitempty"` // "" = multiproof, "ipa" = ipa.CheckIPAProof directly
+	RefProver bool      `json:"reference_prover,omitempty"` // the honest proof is produced by the reference prover, not by the library
+	IPAPoly  PolySpec   `json:"ipa_poly,omitempty"`
+	IPAEval  string     `json:"ipa_eval,omitempty"`
+	IPASeed  uint64     `json:"ipa_seed,omitempty"`
 	Set      OpeningSet `json:"set"`
 	Set2Seed uint64     `json:"set2_seed"`
 	Fault    C02Fault   `json:"fault"`
@@ -88,8 +93,21 @@ func (c02) Gen(seed uint64, run int, tier, variant string) interface{} {
 		f.Pos = r.Pick([]int{0, 1, 7, 9, 2, 16})
 	}
 	p.Fault = f
+	p.RefProver = r.Chance(15)
+	if r.Chance(14) {
+		p.Mode = "ipa"
+		p.RefProver = r.Chance(60)
+		p.IPAPoly = PolySpec{Kind: polyKinds[r.Intn(len(polyKinds))], Seed: r.U64()}
+		p.IPAEval = []string{"in", "out", "edge", "edge"}[r.Intn(4)]
+		p.IPASeed = r.U64()
+		p.Fault.Kind = c02IPAKinds[r.Intn(len(c02IPAKinds))]
+		p.Fault.Pos = r.Intn(8)
+		p.Set = GenOpeningSet(r, 1, 1)
+	}
 	return &p
 }
+
+var c02IPAKinds = []string{"none", "none", "result-other", "result-other", "result-lookalike", "point-other", "point-lookalike", "replace-L", "replace-R", "replace-a", "shape-L", "shape-R", "repr", "zero-L", "zero-R", "commitment-other"}
 
 func (c02) Decode(raw json.RawMessage) (interface{}, error) {
 	var p C02Plan
@@ -167,8 +185,172 @@ func randomPointBytes(r *Rng) []byte {
 	return e[:]
 }
 
+// c02ipa: the IPA verifier on its own, against the reference IPA verifier.
+func c02ipa(p *C02Plan) Result {
+	var res Result
+	f := p.Fault
+	res.Shape = fmt.Sprintf("ipa fault=%s poly=%s eval=%s refprover=%v vcpu=%d", f.Kind, p.IPAPoly.Kind, p.IPAEval, p.RefProver, p.Verifier.NumCPU)
+	cfg := env.Config()
+	fb := genPoly(p.IPAPoly)
+	ff := make([]fr.Element, 256)
+	for i := range ff {
+		ff[i] = FrFromBig(fb[i])
+	}
+	com := cfg.Commit(ff)
+	comRef, ok := RefFromElem(&com)
+	if !ok {
+		res.Infra = "Commit returned Z=0"
+		return res
+	}
+	z := (&C03Plan{IPAEval: p.IPAEval, IPASeed: p.IPASeed}).evalPoint()
+	yTrue := refmodel.InnerProd(fb, refmodel.BVector(z))
+	var rproof refmodel.IPAProof
+	if p.RefProver {
+		rproof = refmodel.IPAProve(refmodel.NewTranscript("ipa-c02"), comRef, fb, z)
+	} else {
+		lp, err := ipa.CreateIPAProof(common.NewTranscript("ipa-c02"), cfg, com, ff, FrFromBig(z))
+		if err != nil {
+			res.Infra = "honest IPA prover failed: " + err.Error()
+			return res
+		}
+		var b bytes.Buffer
+		lp.Write(&b)
+		rproof, err = refmodel.ParseIPAProof(b.Bytes())
+		if err != nil {
+			res.Infra = "reference cannot parse the library's IPA proof: " + err.Error()
+			return res
+		}
+	}
+	r := NewRng(f.Seed, 0, "ipafault:"+f.Kind)
+	_, poolP := env.Pool()
+	dC, dz, dy := comRef, new(big.Int).Set(z), new(big.Int).Set(yTrue)
+	dL := append([]refmodel.Point{}, rproof.L...)
+	dR := append([]refmodel.Point{}, rproof.R...)
+	dA := new(big.Int).Set(rproof.A)
+	zeroL, zeroR := -1, -1
+	shape := false
+	low := new(big.Int).And(z, big.NewInt(255))
+	switch f.Kind {
+	case "none", "repr":
+	case "result-other":
+		dy = new(big.Int).Mod(new(big.Int).Add(dy, big.NewInt(int64(1+r.Intn(5)))), refmodel.R)
+	case "result-lookalike":
+		// the claimed value of the DOMAIN element whose index equals the low bits of the point
+		dy = new(big.Int).Set(fb[low.Int64()])
+	case "point-other":
+		dz = r.Scalar()
+	case "point-lookalike":
+		dz = new(big.Int).Set(low)
+	case "replace-L":
+		dL[f.Pos%8] = poolP[r.Intn(poolSize)]
+	case "replace-R":
+		dR[f.Pos%8] = poolP[r.Intn(poolSize)]
+	case "replace-a":
+		dA = r.Scalar()
+	case "shape-L":
+		dL = dL[:f.Pos%8]
+		shape = true
+	case "shape-R":
+		dR = append(dR, dR[0])
+		shape = true
+	case "zero-L":
+		zeroL = f.Pos % 8
+	case "zero-R":
+		zeroR = f.Pos % 8
+	case "commitment-other":
+		dC = poolP[r.Intn(poolSize)]
+	}
+	if f.Kind != "none" {
+		res.fault("ipa:" + f.Kind)
+	}
+	same := dC.Equal(comRef) && dz.Cmp(z) == 0 && dy.Cmp(yTrue) == 0 && dA.Cmp(rproof.A) == 0 && len(dL) == 8 && len(dR) == 8 && zeroL < 0 && zeroR < 0
+	if same {
+		for i := 0; i < 8; i++ {
+			same = same && dL[i].Equal(rproof.L[i]) && dR[i].Equal(rproof.R[i])
+		}
+	}
+	refOK := false
+	var refErr error
+	if zeroL < 0 && zeroR < 0 {
+		refOK, refErr = refmodel.IPAVerify(refmodel.NewTranscript("ipa-c02"), dC, refmodel.IPAProof{L: dL, R: dR, A: dA}, dz, dy)
+	}
+	lam := NewRng(f.Seed, 2, "ipalambda")
+	repr := ReprAffine
+	if f.Kind == "repr" {
+		repr = Repr(1 + lam.Intn(int(NumReprs)-1))
+	}
+	ce := ElemFromRef(dC, repr, lam.Scalar())
+	mk := func(v []refmodel.Point) []banderwagon.Element {
+		o := make([]banderwagon.Element, len(v))
+		for i := range v {
+			rp := ReprAffine
+			if f.Kind == "repr" {
+				rp = Repr(lam.Intn(int(NumReprs)))
+			}
+			o[i] = ElemFromRef(v[i], rp, lam.Scalar())
+		}
+		return o
+	}
+	lp := ipa.IPAProof{L: mk(dL), R: mk(dR), A_scalar: FrFromBig(dA)}
+	if zeroL >= 0 {
+		lp.L[zeroL] = banderwagon.Element{}
+	}
+	if zeroR >= 0 {
+		lp.R[zeroR] = banderwagon.Element{}
+	}
+	vo, out := Simulate(p.Verifier, 8000, func() (vo verifyOut) {
+		vo.ok, vo.err = ipa.CheckIPAProof(common.NewTranscript("ipa-c02"), cfg, ce, lp, FrFromBig(dz), FrFromBig(dy))
+		return
+	})
+	res.absorb(out)
+	if res.Class != "" || res.Infra != "" {
+		return res
+	}
+	libOK := vo.err == nil && vo.ok
+	if vo.err != nil && vo.ok {
+		return mergeViolation(res, "true-with-error", "CheckIPAProof returned (true, %v)", vo.err)
+	}
+	if zeroL >= 0 || zeroR >= 0 {
+		if vo.ok {
+			return mergeViolation(res, "accepted-non-element", "CheckIPAProof accepted a proof containing the all-zero value in place of a group element (%s)", f.Kind)
+		}
+		res.OK = true
+		return res
+	}
+	if shape {
+		if vo.err == nil || vo.ok {
+			return mergeViolation(res, "shape-not-rejected", "CheckIPAProof with |L|=%d |R|=%d returned (%v, %v), want (false, error)", len(dL), len(dR), vo.ok, vo.err)
+		}
+		res.OK = true
+		return res
+	}
+	if libOK != refOK {
+		return mergeViolation(res, "verifier-disagrees", "CheckIPAProof(point=%s, fault %s, proof by %s): library verdict %v (err=%v) but the reference IPA verifier says %v (err=%v)", dz.String(), f.Kind, map[bool]string{true: "reference prover", false: "library prover"}[p.RefProver], libOK, vo.err, refOK, refErr)
+	}
+	if !same && libOK && !(f.Kind == "repr") {
+		// degenerate: the zero polynomial's proof is valid for every claim 0
+		allZero := true
+		for _, v := range fb {
+			if v.Sign() != 0 {
+				allZero = false
+			}
+		}
+		if !allZero {
+			return mergeViolation(res, "accepted-modified-message", "CheckIPAProof accepted a statement/proof that differs from the honest one (fault %s)", f.Kind)
+		}
+	}
+	if same && !libOK {
+		return mergeViolation(res, "rejected-honest-message", "CheckIPAProof rejected an honest proof (by the %s) at point %s: ok=%v err=%v", map[bool]string{true: "reference prover", false: "library prover"}[p.RefProver], z.String(), vo.ok, vo.err)
+	}
+	res.OK = true
+	return res
+}
+
 func (c02) Exec(plan interface{}) Result {
 	p := plan.(*C02Plan)
+	if p.Mode == "ipa" {
+		return c02ipa(p)
+	}
 	var res Result
 	f := p.Fault
 	res.Shape = fmt.Sprintf("fault=%s splice=%v %s vcpu=%d", f.Kind, f.Splice, p.Set.shape(), p.Verifier.NumCPU)
@@ -178,10 +360,27 @@ func (c02) Exec(plan interface{}) Result {
 		return res
 	}
 	n := len(o.Cs)
-	pb, err := honestProve(o, p.Set.Label)
-	if err != nil {
-		res.Infra = "honest prover failed: " + err.Error() // C01's subject, not C02's
-		return res
+	var pb []byte
+	if p.RefProver {
+		var refCs []refmodel.Point
+		var refFs [][]*big.Int
+		for _, op := range p.Set.Ops {
+			refCs = append(refCs, o.ComRef[op.Poly])
+			refFs = append(refFs, o.PolyBig[op.Poly])
+		}
+		rp, rerr := refmodel.MultiProve(refmodel.NewTranscript(p.Set.Label), refCs, refFs, o.Zs)
+		if rerr != nil {
+			res.Infra = "reference prover failed: " + rerr.Error()
+			return res
+		}
+		pb = rp.Bytes()
+		res.note("honest-proof-by-reference-prover")
+	} else {
+		pb, err = honestProve(o, p.Set.Label)
+		if err != nil {
+			res.Infra = "honest prover failed: " + err.Error() // C01's subject, not C02's
+			return res
+		}
 	}
 	sent := &message{label: p.Set.Label, zs: append([]uint8{}, o.Zs...), proof: pb, zeroField: -1, zeroC: -1}
 	for i, op := range p.Set.Ops {
